@@ -193,7 +193,7 @@ def families(tier):
                              params={"shape": list(shape), "form": form},
                              bounds=f"shape {shape}, input form {form}, both orders, all {2 ** int(np.prod(shape))} masks, "
                                     f"symbolic values",
-                             must_cover=["partial", "none-masked", "all-masked"]))
+                             must_cover=(["partial"] if int(np.prod(shape)) > 1 else []) + ["none-masked", "all-masked"]))
     fams.append(dict(name="prepare:2x3", ref="vf.props.c18:h_prepare", params={},
                      bounds="2x3 grid, all 64 masks, payload as array / quantity / flat F-ordered array",
                      must_cover=["done"]))
